@@ -127,6 +127,9 @@ def floor(tier):
                     ({"kind": "tet", "dim": 3, "n": [2, 1, 1], "phys": [1.0, 1.0, 1.0],
                       "perturb": 0.1, "pseed": 5}, "centroid")]:
         out.append({"op": "structured_refinement", "grid": r, "mode": mode, "seed": 17})
+    for k in range(4):
+        out.append({"op": "structured_refinement", "grid": _r1(4 + k, 1.0 + k), "mode": "uneven",
+                    "seed": 30 + k, "cperm": 5 + k})
     # extrude_grid
     pt = {"kind": "point", "dim": 0, "xy": [0.3, -0.7]}
     for r, z in [(pt, [0.0, 1.0]), (pt, [-0.5, -1.0, -2.5]),
@@ -186,7 +189,8 @@ def generate(rng, tier, i):
         u = rng.random()
         seed = int(rng.integers(0, 2**31))
         if u < 0.3:
-            return {"op": op, "grid": _rand_1d(rng), "mode": "uneven", "seed": seed}
+            return {"op": op, "grid": _rand_1d(rng), "mode": "uneven", "seed": seed,
+                    "cperm": int(rng.integers(1, 2**31)) if rng.random() < 0.6 else 0}
         if u < 0.85:
             return {"op": op, "grid": _rand_tri(rng, 16), "seed": seed,
                     "mode": str(rng.choice(["red", "centroid", "red+centroid"]))}
@@ -596,6 +600,10 @@ def _check_structured(case, mon):
     mon.klass("structured_refinement/" + label)
     mon.nontrivial(g.num_cells >= 2)
     if d == 1:
+        if case.get("cperm"):
+            # coarse cells (and nodes) numbered in a random order along the line
+            g = _permute_1d(g, case["cperm"])
+            mon.count("sr_1d_coarse_numbering_permuted")
         h, owner = _fine_1d(g, rng)
     else:
         h, owner = _fine_simplex(g, case["mode"], rng)
